@@ -1,3 +1,97 @@
 package main
 
-func selftestMain(args []string) int { return 0 }
+import (
+	"flag"
+	"fmt"
+	"os"
+)
+
+// selftestMain: gate for the harness itself (DESIGN.md §3.7).
+//  1. token scheduler torture: 10^6 hand-offs among 16 goroutines; a counter
+//     incremented only by the token holder (unsynchronised) must end exact and
+//     the realised trace must be identical on repetition;
+//  2. simulated storage contract: snapshot cursors, Seek/Next, Get of missing
+//     keys, fault kinds;
+//  3. replay determinism: a C19 scenario executed twice in-process gives the
+//     same interleaving hash and results.
+func selftestMain(args []string) int {
+	fs := flag.NewFlagSet("selftest", flag.ExitOnError)
+	fs.Bool("race", false, "informational")
+	fs.Parse(args)
+	fail := func(f string, a ...any) int {
+		fmt.Fprintf(os.Stderr, "SELFTEST FAILED: "+f+"\n", a...)
+		return 2
+	}
+	// 1. scheduler torture
+	r := NewRng(42)
+	n, per := 16, 62500
+	sched := make([]int32, n*per)
+	for i := range sched {
+		if r.Chance(0.5) {
+			sched[i] = int32(r.Intn(n))
+		} else {
+			sched[i] = -1
+		}
+	}
+	ok1, h1 := schedTorture(n, per, sched)
+	ok2, h2 := schedTorture(n, per, sched)
+	if !ok1 || !ok2 {
+		return fail("token scheduler lost or duplicated a hand-off (counter not exact)")
+	}
+	if h1 != h2 {
+		return fail("token scheduler trace not reproducible: %x vs %x", h1, h2)
+	}
+	// 2. storage contract
+	c := NewCore([]KV{{"a", "1"}, {"b", ""}, {"c", "3"}}, true)
+	h := NewHandle(c, 0, []Fault{{Call: 9, Kind: FErr}}, false, "t")
+	cur, _ := h.Cursor()
+	h.Put([]byte("bb"), []byte("x")) // after the snapshot
+	var got []string
+	for {
+		k, v, _ := cur.Next()
+		if k == nil {
+			break
+		}
+		got = append(got, string(k)+"="+string(v))
+	}
+	if fmt.Sprint(got) != "[a=1 b= c=3]" {
+		return fail("cursor is not a snapshot positioned before the first key: %v", got)
+	}
+	if k, _, _ := cur.Next(); k != nil {
+		return fail("Next after end-of-stream must keep returning end-of-stream")
+	}
+	if v, err := h.Get([]byte("zz")); v != nil || err != nil {
+		return fail("Get of a missing key must be (nil, nil)")
+	}
+	if v, _ := h.Get([]byte("b")); v == nil || len(v) != 0 {
+		return fail("Get of a stored empty value must be a non-nil empty slice")
+	}
+	if _, err := h.Get([]byte("a")); err == nil {
+		return fail("fault plan did not fire at call #9 (calls so far %d)", len(h.log))
+	}
+	cur2, _ := h.Cursor()
+	cur2.Seek([]byte("b0"))
+	if k, _, _ := cur2.Next(); string(k) != "bb" {
+		return fail("Seek must position at the first key >= target, got %q", k)
+	}
+	// 3. replay determinism of a concurrent scenario
+	p := registry["C19"]
+	sc := p.Gen(deriveSeed(7, "C19", 3), 3, "quick")
+	a := runClients(sc, sc.Schedule)
+	b := runClients(sc, sc.Schedule)
+	if a.traceH != b.traceH || a.yields != b.yields {
+		return fail("concurrent scenario is not reproducible: interleaving %x/%d vs %x/%d", a.traceH, a.yields, b.traceH, b.yields)
+	}
+	for ci := range a.res {
+		for i := range a.res[ci] {
+			if ok, why := stmtResEqual(&a.res[ci][i], &b.res[ci][i]); !ok {
+				return fail("concurrent scenario results differ between two executions: %s", why)
+			}
+		}
+	}
+	if reps := newRaceReports(); len(reps) > 0 {
+		return fail("race detector reports during self-test: %s", oneLine(reps[0], 600))
+	}
+	fmt.Printf("selftest ok: %d hand-offs x2 exact, trace %x; storage contract ok; concurrent replay identical (race=%v)\n", n*per, h1, raceEnabled)
+	return 0
+}
